@@ -143,6 +143,29 @@ theorem firstTupleArg_wf (ts : List Ty) (hw : wfTL ts = true) (v : Ty) (h : firs
     simp only [wfTL, Bool.and_eq_true] at hw
     exact ih hw.2 h
 
+theorem foldl_minByRank_mem (h : Hier) (as : List ClassId) (a : ClassId) :
+    as.foldl (fun m b => if h.rank b < h.rank m then b else m) a = a ∨
+    as.foldl (fun m b => if h.rank b < h.rank m then b else m) a ∈ as := by
+  induction as generalizing a with
+  | nil => exact Or.inl rfl
+  | cons b bs ih =>
+    simp only [List.foldl_cons]
+    rcases ih (if h.rank b < h.rank a then b else a) with e | m
+    · rw [e]; split
+      · exact Or.inr (List.mem_cons_self)
+      · exact Or.inl rfl
+    · exact Or.inr (List.mem_cons_of_mem _ m)
+
+theorem minByRank_mem (h : Hier) (l : List ClassId) (a : ClassId) (hm : minByRank h l = some a) : a ∈ l := by
+  cases l with
+  | nil => simp [minByRank] at hm
+  | cons x xs =>
+    simp only [minByRank, Option.some.injEq] at hm
+    subst hm
+    rcases foldl_minByRank_mem h xs x with e | m
+    · rw [e]; exact List.mem_cons_self
+    · exact List.mem_cons_of_mem _ m
+
 theorem largeUnionCollapse_wf (h : Hier) (ts : List Ty) (hw : wfTL ts = true) : (largeUnionCollapse h ts).wf = true := by
   unfold largeUnionCollapse
   split
@@ -459,9 +482,9 @@ theorem largeUnionCollapse_sound (ai : Bool) (ts : List Ty) (v : Val)
       · split
         · next a ha =>
           obtain ⟨t, ht, hct⟩ := hc
-          have := List.find?_some ha
-          simp only [Bool.and_eq_true, List.all_eq_true] at this
-          have hta := this.2 t ht
+          have hmem := minByRank_mem h _ a ha
+          simp only [mostSpecific, commonAncestors, List.mem_filter, Bool.and_eq_true, List.all_eq_true] at hmem
+          have hta := hmem.1.2.2 t ht
           cases t <;> simp at hta
           rename_i c
           simp only [conforms] at hct ⊢
